@@ -39,6 +39,16 @@ def bind_repo():
     want = os.path.join(os.path.abspath(REPO), "xfab")
     if os.path.realpath(got) != os.path.realpath(want):
         raise RuntimeError("xfab imported from %s, expected %s" % (got, want))
+    # environment: every module of the package is imported before anything is checked, so that import-time side effects of one
+    # module on the shared tables of another (name dictionary, constants, numpy print options) are present in every check
+    import importlib
+    import pkgutil
+
+    for m in pkgutil.iter_modules(xfab.__path__):
+        try:
+            importlib.import_module("xfab." + m.name)
+        except Exception:  # a module that cannot be imported is the business of the checks that use it
+            pass
     return xfab
 
 
@@ -560,3 +570,94 @@ def covering_walk(n):
         for j in range(n):
             seq += [i, j]
     return seq
+
+
+def _outcome(fn, args, kw):
+    try:
+        return ("ok", fn(*args, **kw))
+    except Exception as ex:  # noqa: BLE001
+        return ("raise", ex)
+
+
+def _flat(x):
+    """all numbers of a (nested) result as one float vector, or None if it holds something else"""
+    import numpy as np
+
+    try:
+        if isinstance(x, (list, tuple)) and any(isinstance(e, (list, tuple, np.ndarray)) for e in x):
+            parts = [_flat(e) for e in x]
+            if any(p is None for p in parts):
+                return None
+            return np.concatenate(parts) if parts else np.zeros(0)
+        a = np.asarray(x)
+        if a.dtype.kind in "fiub":
+            return a.astype(float).reshape(-1)
+        if a.dtype.kind == "c":
+            return np.concatenate([a.real.reshape(-1), a.imag.reshape(-1)])
+    except Exception:
+        pass
+    return None
+
+
+def param_names(fn):
+    import inspect
+
+    try:
+        ps = list(inspect.signature(fn).parameters.values())
+    except (TypeError, ValueError):
+        return None
+    if any(p.kind in (p.VAR_POSITIONAL, p.VAR_KEYWORD, p.POSITIONAL_ONLY) for p in ps):
+        return None
+    return [p.name for p in ps]
+
+
+def variants(r, key, fn, args, pos, tol_exact, tol_single, names=None, skip=(), dev=None, kinds=None, what=None, model=None):
+    """Argument-kind x call-form probe.  fn(*args) is the reference outcome (float64 containers as built by the harness, positional);
+    the argument at `pos` is then passed in every kind of alph.kinds (list, tuple, ndarray, strided view, Fortran order, whole numbers
+    as ints / integer arrays, float32) x {positional, every argument by keyword}; each outcome must be the reference outcome:
+    both raise, or both return and the numbers agree within tol_exact (same float64 values) / tol_single (float32 input).
+    `names`: the documented parameter names (default: read from the signature); `dev(ref, got)`: custom deviation."""
+    import numpy as np
+    from . import alph
+
+    args = list(args)
+    ref = _outcome(fn, args, {})
+    names = names or param_names(fn)
+    n = 0
+    for kind, obj, prec in (kinds if kinds is not None else alph.kinds(args[pos])):
+        if kind in skip or (prec == "single" and tol_single is None):
+            continue
+        a = list(args)
+        a[pos] = obj
+        forms = [("positional", a, {})]
+        if names is not None and len(names) >= len(a):
+            forms.append(("keywords", [], dict(zip(names, a))))
+        for form, fa, fk in forms:
+            got = _outcome(fn, fa, fk)
+            r.evals += 1
+            n += 1
+            k = "%s:arg%d=%s:%s" % (key, pos, kind, form)
+            w = what or "the result does not depend on the container / dtype of an argument nor on positional vs keyword passing"
+            if ref[0] != got[0]:
+                r.violation(k, w, _short(ref[1]) if ref[0] == "ok" else repr(ref[1]), _short(got[1]) if got[0] == "ok" else repr(got[1]), model=model)
+                continue
+            if ref[0] == "raise":
+                continue
+            tol = tol_exact if prec == "exact" else tol_single
+            if dev is not None:
+                d = dev(ref[1], got[1])
+            else:
+                fr, fg = _flat(ref[1]), _flat(got[1])
+                if fr is None or fg is None:
+                    d = 0.0 if same_value(ref[1], got[1]) else float("inf")
+                elif fr.shape != fg.shape:
+                    d = float("inf")
+                elif fr.size == 0:
+                    d = 0.0
+                else:
+                    both_nan = np.isnan(fr) & np.isnan(fg)
+                    dd = np.where(both_nan, 0.0, np.abs(fr - fg))
+                    d = float(np.max(dd)) / max(1.0, float(np.nanmax(np.abs(fr))) if np.any(~np.isnan(fr)) else 1.0)
+            if not d <= tol:
+                r.violation(k, w, _short(ref[1]), _short(got[1]), tol, d, model=model)
+    return n
